@@ -173,7 +173,6 @@ class USBControlEndpoint(Elaboratable):
             interface.handshakes_out.ack           .eq(setup_decoder.ack | request_handler.handshakes_out.ack),
             interface.handshakes_out.nak           .eq(request_handler.handshakes_out.nak),
             interface.handshakes_out.stall         .eq(request_handler.handshakes_out.stall),
-            interface.handshakes_in                .connect(request_handler.handshakes_in),
 
             interface.address_changed              .eq(request_handler.address_changed),
             interface.new_address                  .eq(request_handler.new_address),
@@ -190,11 +189,18 @@ class USBControlEndpoint(Elaboratable):
         ]
 
 
+        # Host handshakes are broadcast to every endpoint. Only pass them on to our request handlers
+        # when they conclude an IN transaction on this endpoint; otherwise e.g. the ACK of a bulk IN
+        # packet would be taken for the ACK of our status stage.
+        endpoint_targeted = (self.interface.tokenizer.endpoint == self._endpoint_number)
+        with m.If(endpoint_targeted & interface.tokenizer.is_in):
+            m.d.comb += interface.handshakes_in.connect(request_handler.handshakes_in)
+
+
         #
         # Core control request handler.
         # Behavior dictated by [USB2, 8.5.3].
         #
-        endpoint_targeted = (self.interface.tokenizer.endpoint == self._endpoint_number)
         with m.FSM(domain="usb"):
 
             # SETUP -- The "SETUP" phase of a control request. We'll wait here
